@@ -38,6 +38,9 @@ func (xp xpathImpl) resolvePath(seg *xpath.Path, s *Selection) (*Selection, erro
 			return sel, err
 		}
 
+		if seg.Next == nil {
+			return nil, fmt.Errorf("%w. list '%s' cannot be compared in xpath", fc.BadRequestError, seg.Ident)
+		}
 		li, err := sel.First()
 		if err != nil {
 			return nil, err
@@ -60,7 +63,7 @@ func (xp xpathImpl) resolvePath(seg *xpath.Path, s *Selection) (*Selection, erro
 		}
 		return s, nil
 	}
-	panic("type not supported " + m.Ident())
+	return nil, fmt.Errorf("%w. '%s' is not a container, list or leaf and is not supported in xpath", fc.BadRequestError, m.Ident())
 }
 
 func (xp xpathImpl) resolveExpression(name string, e xpath.Expression, sel *Selection) (bool, error) {
